@@ -216,6 +216,9 @@ func (c *fnCtx) callTranslated(cal *fnFunc, v *ast.CallExpr, pre *[]fnBind, want
 	} else if len(args) != len(cal.params) || (v.Ellipsis.IsValid() && !variadic) {
 		c.lostAt(v, "call of %s (arity)", cal.name)
 	}
+	if cal.nilParams {
+		c.lostAt(v, "call of %s, which compares a function-typed parameter with nil", cal.name)
+	}
 	if cal.namedRecv {
 		// the receiver must have the map type the method is declared on
 		if x := c.plainVar(args[0]); x == nil || x.typ.k != "map" || x.typ.name != cal.recv {
@@ -676,6 +679,9 @@ func (c *fnCtx) stmt(s ast.Stmt, k func() term) term {
 		}
 		return c.assign(&ast.AssignStmt{Lhs: []ast.Expr{v.X}, Tok: tok, Rhs: []ast.Expr{one}, TokPos: v.Pos()}, k)
 	case *ast.AssignStmt:
+		if lo := c.fn.localObj; lo != nil && v == lo.stmt {
+			return c.localObjInit(lo, k)
+		}
 		return c.assign(v, k)
 	case *ast.DeclStmt:
 		gd, ok := v.Decl.(*ast.GenDecl)
@@ -723,6 +729,7 @@ func (c *fnCtx) stmt(s ast.Stmt, k func() term) term {
 		if c.lit != nil {
 			return c.litReturn(v)
 		}
+		c.retPos = v.Pos()
 		var pre []fnBind
 		var vals []string
 		res := c.fn.results
@@ -1133,6 +1140,10 @@ func (c *fnCtx) assign1(st *ast.AssignStmt, l, r ast.Expr, k func() term) term {
 		bindRaw(&pre, x.name, "go_store64 "+x.name+" "+paren(idx)+" "+paren(e))
 		return wrap(pre, k())
 	}
+	// q.move = u on a callback field whose calls are the log
+	if c.logFieldStore(st, l, r) {
+		return k()
+	}
 	// x.f = e on a struct-valued variable or field
 	if sel, ok := l.(*ast.SelectorExpr); ok && !c.isRecv(sel.X) {
 		return c.structStore(st, sel, r, k)
@@ -1296,6 +1307,11 @@ func (c *fnCtx) assign1(st *ast.AssignStmt, l, r ast.Expr, k func() term) term {
 				if x != nil {
 					pre = append(pre, fnBind{pat: x.name, e: val, isLet: true})
 					if sp := c.fat[x]; sp != nil && x.role == "field" {
+						for f, fv := range c.fields {
+							if fv == x {
+								c.fn.remakes[f] = true
+							}
+						}
 						// the rest of the fresh array, up to its capacity, is zero as well
 						spv := "[]"
 						if cp != n {
